@@ -585,3 +585,6 @@ End MST.
 
 Arguments Node {K V}.
 Arguments Mast {K V}.
+Arguments INoop {K V}.
+Arguments IUpd {K V}.
+Arguments IIns {K V}.
